@@ -516,3 +516,140 @@ func ruleBarWait(w *World, r *Report, pfx string) {
 	}
 	r.Check(ok && n == 1, rule, "API:Bar.Wait", w.pos(fn.Pos()), "waits for the ready channel (closed after the state is final and published)", "Bar.Wait does not wait for the bar's ready channel: it can return before the bar goroutine fixed the terminal flags (a cancelled bar observed neither completed nor aborted)")
 }
+
+
+// ruleThreadSafeAverage (C10): the mutex wrapper around a moving average. Every method of the
+// wrapper makes its single call of the wrapped average between Lock and Unlock of the wrapper's
+// own mutex on every path, and the constructor is idempotent: an argument that already is the
+// wrapper is returned itself (re-wrapping its inner average would put two different locks
+// around one unsynchronised average, which the per-decorator goroutines of EwmaIncr* enter
+// concurrently); any other argument is wrapped once.
+func ruleThreadSafeAverage(w *World, r *Report, rule string) {
+	ctor := w.Func("decor.NewThreadSafeMovingAverage")
+	if ctor == nil {
+		r.Unresolved("anchor", "decor.NewThreadSafeMovingAverage", "not found")
+		return
+	}
+	const tT = "decor.threadSafeMovingAverage"
+	arg := ssa.Value(ctor.Params[0])
+	bad := ""
+	sawSelf, sawWrap := false, false
+	w.enumPaths(ctor, pathOpts{InlineDepth: 2, Inline: w.helperInline(ctor)}, func(p *Path) {
+		if bad != "" || p.Exit != "return" || len(p.Ret) != 1 {
+			return
+		}
+		already := tri(triUnknown)
+		var ta *ssa.TypeAssert
+		for _, a := range p.Atoms {
+			c := p.cmpOf(a)
+			if c.Op != token.ILLEGAL {
+				continue
+			}
+			if ex, ok := c.X.V.(*ssa.Extract); ok && ex.Index == 1 {
+				if t, ok := ex.Tuple.(*ssa.TypeAssert); ok && typeName(t.AssertedType) == tT && p.R(Val{t.X, c.X.F, c.X.E}).V == arg {
+					ta = t
+					if c.Pol {
+						already = triTrue
+					} else {
+						already = triFalse
+					}
+				}
+			}
+		}
+		rv := p.R(p.Ret[0])
+		inner := stripConv(rv.V)
+		switch already {
+		case triTrue:
+			sawSelf = true
+			if ex, ok := inner.(*ssa.Extract); !ok || ex.Tuple != ssa.Value(ta) || ex.Index != 0 {
+				bad = "an argument that already is the thread-safe wrapper is not returned itself (re-wrapping puts a second, different lock around the same unsynchronised average)"
+			}
+		case triFalse:
+			sawWrap = true
+			al, ok := inner.(*ssa.Alloc)
+			if !ok || typeName(al.Type()) != tT {
+				bad = "a plain average is not wrapped into the mutex wrapper"
+				return
+			}
+			okField := false
+			for _, ref := range *al.Referrers() {
+				if fa, ok := ref.(*ssa.FieldAddr); ok && fa.Referrers() != nil {
+					for _, r2 := range *fa.Referrers() {
+						if st, ok := r2.(*ssa.Store); ok && st.Addr == ssa.Value(fa) && p.R(Val{st.Val, rv.F, rv.E}).V == arg {
+							okField = true
+						}
+					}
+				}
+			}
+			if !okField {
+				bad = "the wrapper does not wrap the caller's average"
+			}
+		default:
+			bad = "the constructor does not test whether its argument already is the wrapper"
+		}
+	})
+	r.Check(bad == "" && sawSelf && sawWrap, rule, "decor.NewThreadSafeMovingAverage", w.pos(ctor.Pos()), "idempotent: the wrapper itself, or one new wrapper around the argument", orStr(bad, "branch missing"))
+	// methods
+	n := 0
+	for _, fn := range w.ModFns {
+		if fn.Pkg != w.Decor || fn.Parent() != nil || fn.Signature.Recv() == nil || typeName(fn.Signature.Recv().Type()) != tT || fn.Synthetic != "" {
+			continue
+		}
+		n++
+		bad := ""
+		w.enumPaths(fn, pathOpts{}, func(p *Path) {
+			if p.Exit != "return" || bad != "" {
+				return
+			}
+			lock, unlock, inner, deferred := -1, -1, -1, false
+			for _, ev := range p.Events {
+				var c *ssa.CallCommon
+				isDefer := false
+				switch x := ev.In.(type) {
+				case *ssa.Call:
+					c = &x.Call
+				case *ssa.Defer:
+					c, isDefer = &x.Call, true
+				}
+				if c == nil {
+					continue
+				}
+				if sc := c.StaticCallee(); sc != nil && sc.Signature.Recv() != nil && typeName(sc.Signature.Recv().Type()) == "sync.Mutex" {
+					if f, ok := fieldOf(c.Args[0]); !ok || f.Owner != tT {
+						bad = "locks a mutex other than the wrapper's own"
+					}
+					switch sc.Name() {
+					case "Lock":
+						lock = ev.Idx
+					case "Unlock":
+						if isDefer {
+							deferred = true
+							if inner >= 0 {
+								bad = "the unlock is deferred only after the wrapped call"
+							}
+						} else {
+							unlock = ev.Idx
+						}
+					}
+				}
+				if c.IsInvoke() && !isDefer {
+					if inner >= 0 {
+						bad = "more than one call of the wrapped average"
+					}
+					inner = ev.Idx
+				}
+			}
+			switch {
+			case bad != "":
+			case inner < 0:
+				bad = "the wrapped average is not called"
+			case lock < 0 || lock > inner:
+				bad = "the wrapped average is called without holding the wrapper's lock"
+			case !deferred && (unlock < 0 || unlock < inner):
+				bad = "the lock is not released after the wrapped call on every path"
+			}
+		})
+		r.Check(bad == "", rule, "method "+fnShort(fn), w.pos(fn.Pos()), "wrapped call between Lock and Unlock of the wrapper's mutex", bad)
+	}
+	r.Floor(rule, 4, "constructor and Add, Value, Set")
+}
